@@ -214,6 +214,7 @@ func (ex *Exec) def(prefix string, t *Term) *Term {
 	ex.nfresh++
 	name := fmt.Sprintf("%s_%d", sanitizeSym(prefix), ex.nfresh)
 	ex.Defs = append(ex.Defs, Def{Name: name, S: t.S, T: t})
+	CurDefs[name] = t
 	return Sym(name, t.S)
 }
 
@@ -283,7 +284,70 @@ func (ex *Exec) newCell(name string) *Cell {
 
 func (ex *Exec) newRegion(name string, elem types.Type, fixed int64) *Region {
 	ex.ncell++
-	return &Region{Name: fmt.Sprintf("%s#%d", name, ex.ncell), id: ex.ncell, Elem: elem, FixedLen: fixed}
+	r := &Region{Name: fmt.Sprintf("%s#%d", name, ex.ncell), id: ex.ncell, Elem: elem, FixedLen: fixed}
+	if st, ok := elem.Underlying().(*types.Struct); ok && st.NumFields() > 0 && st.NumFields() <= 6 {
+		all := true
+		for i := 0; i < st.NumFields(); i++ {
+			if _, scalar := ex.elemSort(st.Field(i).Type()); !scalar {
+				all = false
+			}
+		}
+		if all {
+			for i := 0; i < st.NumFields(); i++ {
+				ex.ncell++
+				r.Sub = append(r.Sub, &Region{Name: fmt.Sprintf("%s.%s", r.Name, st.Field(i).Name()), id: ex.ncell, Elem: st.Field(i).Type(), FixedLen: fixed})
+			}
+		}
+	}
+	return r
+}
+
+// setRegionMem initialises the contents of a region (and of its per-field sub-regions) with mk(elemType, nameSuffix).
+func (ex *Exec) setRegionMem(st *State, r *Region, mk func(elem types.Type, suffix string) *Term) {
+	if len(r.Sub) > 0 {
+		for _, s := range r.Sub {
+			st.Mem[s] = mk(s.Elem, s.Name[strings.LastIndex(s.Name, "."):])
+		}
+		st.Mem[r] = mk(types.Typ[types.Int], "")
+		return
+	}
+	st.Mem[r] = mk(r.Elem, "")
+}
+
+func (ex *Exec) regionLoad(st *State, r *Region, idx *Term, path []int) Val {
+	if len(r.Sub) > 0 {
+		if len(path) == 1 {
+			return ex.elemVal(r.Sub[path[0]].Elem, Select(st.Mem[r.Sub[path[0]]], idx))
+		}
+		sv := StructV{Typ: r.Elem}
+		for _, s := range r.Sub {
+			sv.F = append(sv.F, ex.elemVal(s.Elem, Select(st.Mem[s], idx)))
+		}
+		return sv
+	}
+	mem := st.Mem[r]
+	if mem == nil {
+		ex.reject("load from unknown region %s", r.Name)
+	}
+	return ex.elemVal(r.Elem, Select(mem, idx))
+}
+
+func (ex *Exec) regionStore(st *State, r *Region, idx *Term, path []int, v Val) {
+	if len(r.Sub) > 0 {
+		if len(path) == 1 {
+			st.Mem[r.Sub[path[0]]] = ex.def("mem", Store(st.Mem[r.Sub[path[0]]], idx, ex.elemTerm(v)))
+			return
+		}
+		sv, ok := v.(StructV)
+		if !ok {
+			ex.reject("store of non-struct into struct-element region")
+		}
+		for i, s := range r.Sub {
+			st.Mem[s] = ex.def("mem", Store(st.Mem[s], idx, ex.elemTerm(sv.F[i])))
+		}
+		return
+	}
+	st.Mem[r] = ex.def("mem", Store(st.Mem[r], idx, ex.elemTerm(v)))
 }
 
 func (ex *Exec) regionSort(elem types.Type) Sort {
@@ -354,7 +418,7 @@ func (ex *Exec) symVal(st *State, name string, t types.Type, depth int) Val {
 	case *types.Slice:
 		r := ex.newRegion(name, u.Elem(), -1)
 		r.Param = true
-		st.Mem[r] = ex.declInput(name+"!data", ex.regionSort(u.Elem()))
+		ex.setRegionMem(st, r, func(el types.Type, suf string) *Term { return ex.declInput(name+"!data"+suf, ex.regionSort(el)) })
 		l := ex.declInput(name+"!len", ex.idxSort())
 		c := ex.declInput(name+"!cap", ex.idxSort())
 		ex.Assumes = append(ex.Assumes, ex.geZero(l), ex.le(l, c), ex.le(c, ex.maxLen()))
@@ -475,6 +539,9 @@ func (ex *Exec) zeroVal(st *State, t types.Type) Val {
 			zero = IntC(0)
 		}
 		st.Mem[r] = App(fmt.Sprintf("(as const %s)", ex.regionSort(u.Elem())), ex.regionSort(u.Elem()), zero)
+		if len(r.Sub) > 0 {
+			ex.setRegionMem(st, r, func(el types.Type, suf string) *Term { return ex.zeroArray(el) })
+		}
 		return ArrayV{Typ: u, Region: r}
 	}
 	ex.reject("zero value of type %s", t)
@@ -506,11 +573,7 @@ func (ex *Exec) load(st *State, p Val, site string) Val {
 		}
 		return v
 	case PElem:
-		mem := st.Mem[pv.Region]
-		if mem == nil {
-			ex.reject("load from unknown region %s", pv.Region.Name)
-		}
-		return ex.elemVal(pv.Region.Elem, Select(mem, pv.Idx))
+		return ex.regionLoad(st, pv.Region, pv.Idx, pv.Path)
 	case PBig:
 		ex.reject("direct load of big.Int struct")
 	case POpaque:
@@ -576,7 +639,7 @@ func (ex *Exec) store(st *State, p Val, v Val, site string) {
 		old := st.Cells[pv.Cell]
 		st.Cells[pv.Cell] = setPath(old, pv.Path, v)
 	case PElem:
-		st.Mem[pv.Region] = ex.def("mem", Store(st.Mem[pv.Region], pv.Idx, ex.elemTerm(v)))
+		ex.regionStore(st, pv.Region, pv.Idx, pv.Path, v)
 	default:
 		ex.reject("store through unmodelled pointer")
 	}
@@ -972,6 +1035,13 @@ func (ex *Exec) step(st *State, fr *Frame, ins ssa.Instruction) bool {
 			np.Path = append(append([]int{}, p.Path...), x.Field)
 			st0 := x.X.Type().Underlying().(*types.Pointer).Elem().Underlying().(*types.Struct)
 			np.Elem = st0.Field(x.Field).Type()
+			fr.Vals[x] = np
+		case PElem:
+			if len(p.Region.Sub) == 0 || len(p.Path) != 0 {
+				ex.reject("FieldAddr into an element of %s", p.Region.Name)
+			}
+			np := p
+			np.Path = []int{x.Field}
 			fr.Vals[x] = np
 		case PNil:
 			ex.safety(st, "nil-deref", ex.siteName(fr, ins, "nil"), False)
@@ -1625,8 +1695,8 @@ func (ex *Exec) payload(st *State, v IfaceV, t types.Type) Val {
 
 func (ex *Exec) indexAddr(st *State, fr *Frame, x *ssa.IndexAddr) Val {
 	base := ex.val(fr, x.X, st)
-	idx := ex.toIdx(ex.val(fr, x.Index, st).(Scalar).T, x.Index.Type())
 	site := ex.siteName(fr, x, "index")
+	idx := ex.toIdxNoWrap(st, site, ex.val(fr, x.Index, st).(Scalar).T, x.Index.Type())
 	switch b := base.(type) {
 	case SliceV:
 		if b.Region == nil {
@@ -1662,6 +1732,57 @@ func (ex *Exec) index(st *State, fr *Frame, x *ssa.Index) Val {
 	}
 	ex.reject("Index on %s", valString(base))
 	return nil
+}
+
+// toIdxNoWrap: like toIdx, but an index computed in a narrower unsigned type as base+const (ip+1 in uint16)
+// is widened as zext(base)+const, with a side obligation that the narrow addition did not wrap. The wide
+// form lets reads over stores be resolved syntactically; the obligation keeps that sound.
+func (ex *Exec) toIdxNoWrap(st *State, site string, t *Term, typ types.Type) *Term {
+	if ex.Mode != ModeBV {
+		return t
+	}
+	bits, signed, _ := intInfo(typ)
+	if bits == 64 || signed {
+		return ex.toIdx(t, typ)
+	}
+	base, off := splitAdd(t, 0)
+	if base == nil || off == nil || off.Sign() == 0 {
+		return ex.toIdx(t, typ)
+	}
+	wide := BVBin("bvadd", BVZeroExt(64-bits, base), BVC(off, 64))
+	ex.safety(st, "idxwrap", site, Eq(BVZeroExt(64-bits, t), wide))
+	return wide
+}
+
+// splitAdd: t == base + off (mod 2^w) with off constant; looks through named definitions.
+func splitAdd(t *Term, depth int) (*Term, *big.Int) {
+	if depth > 40 {
+		return t, big.NewInt(0)
+	}
+	switch t.Op {
+	case "sym":
+		if d, ok := CurDefs[t.Name]; ok {
+			return splitAdd(d, depth+1)
+		}
+	case "const":
+		return nil, t.Val
+	case "bvadd":
+		if len(t.Args) == 2 {
+			b0, o0 := splitAdd(t.Args[0], depth+1)
+			b1, o1 := splitAdd(t.Args[1], depth+1)
+			if o0 == nil || o1 == nil {
+				return t, big.NewInt(0)
+			}
+			sum := new(big.Int).Mod(new(big.Int).Add(o0, o1), Pow2(t.S.W))
+			switch {
+			case b0 == nil:
+				return b1, sum
+			case b1 == nil:
+				return b0, sum
+			}
+		}
+	}
+	return t, big.NewInt(0)
 }
 
 // toIdx converts an integer term of Go type t to the index sort (int, 64-bit signed)
@@ -1746,7 +1867,7 @@ func (ex *Exec) makeSlice(st *State, fr *Frame, x *ssa.MakeSlice) Val {
 	if cp.IsConst() && cp.Val.IsInt64() && cp.Val.Int64() <= 64 {
 		r.FixedLen = cp.Val.Int64()
 	}
-	st.Mem[r] = ex.zeroArray(elem)
+	ex.setRegionMem(st, r, func(el types.Type, suf string) *Term { return ex.zeroArray(el) })
 	return SliceV{Elem: elem, Region: r, Off: ex.idxConst(0), Len: ln, Cap: cp}
 }
 
